@@ -348,6 +348,10 @@ def compare(ctx, pt, outs):
             ok = False
             continue
         atol = 64 * 2.3e-16 * (mag[0] if k == "bias" else mag[1])
+        if k == "mse" and "variance" in model:
+            # mse = variance + bias^2 cancels when the formula is used outside its domain (variance ~ -bias^2): a 1-ulp
+            # difference of exp shows relative to the terms, not to their sum
+            atol += 1e-9 * (abs(model["variance"]) + model["bias"] ** 2) if math.isfinite(model["variance"]) and math.isfinite(model["bias"]) and abs(model["bias"]) < 1e150 else 0.0
         rtol = 1e-9
         if pt.mech == "Geometric":
             # 1 - exp(scale) cancels: a 1-ulp difference of exp is amplified by 1/(1-r), three times over
@@ -577,6 +581,9 @@ WITNESS_INPUTS = {
     "C19:LaplaceTruncated:float-cancellation": (
         "LaplaceTruncated", {"epsilon": 0.01, "delta": 0.2501024665196015, "sensitivity": 1e6, "lower": -0.0005,
                              "upper": 0.0005}, -0.00049),
+    "C19:LaplaceFolded:float-cancellation": (
+        "LaplaceFolded", {"epsilon": 0.0024647771433359018, "delta": 0.0, "sensitivity": 1e6, "lower": 0.0, "upper": 0.001},
+        0.0005706915959844733),
     "C19:LaplaceBoundedDomain:float-cancellation": (
         "LaplaceBoundedDomain", {"epsilon": 1.0, "delta": 0.0, "sensitivity": 1.0, "lower": 1e7, "upper": 1e7 + 10}, 1e7 + 3),
     # regression witness of a defect fixed in /repo (21336e0): no longer expected to fail
